@@ -10,7 +10,9 @@ CHECKS = {
             "TLC model-checks CLImpl.tla (node-level model of callbacklist.h with the abstract list as ghost state: refinement, results of every "
             "operation, enumeration = content) exhaustively for the stated bounds, emits its transition cover, every script is executed on the real "
             "CallbackList in several policy worlds and TLC validates each recorded execution against the abstract TraceCL.tla. All bounded histories "
-            "incl. stale/empty/repeated handles are enumerated by state, which no sampled unit test can do.",
+            "incl. stale/empty/repeated handles are enumerated by state, which no sampled unit test can do. UtilGen.tla is the reference model of the "
+            "eventutil.h helpers over lists that hold the same comparable callback several times (exactly one removed per call); a DQImpl plan drives the "
+            "dispatcher / queue overloads of the helpers (TraceDQ).",
             "TLA+ model checking (TLC) + transition-cover replay on the real code + TLC trace validation against the abstract spec"),
     "C02": (MC, "7/C02", "seq",
             "Same pipeline with callbacks that perform any list operation while being invoked (nesting depth 2 exhaustively, depth 3 by simulation): "
